@@ -3,7 +3,7 @@ package signaller
 import (
 	"crypto/sha256"
 	"fmt"
-	"math"
+	"math/big"
 	"time"
 
 	sdk "github.com/cosmos/cosmos-sdk/types"
@@ -36,12 +36,17 @@ func isDeviated(deviationBasisPoint int64, oldPrice uint64, newPrice uint64) boo
 		return newPrice != 0
 	}
 
-	// Calculate the deviation
-	diff := math.Abs(float64(newPrice) - float64(oldPrice))
-	dev := int64((diff * 10000) / float64(oldPrice))
+	// Calculate the deviation with exact integer arithmetic (float64 loses precision once
+	// diff * 10000 exceeds 2^53, which misjudges moves of exactly the allowed deviation)
+	diff := newPrice - oldPrice
+	if newPrice < oldPrice {
+		diff = oldPrice - newPrice
+	}
+	scaledDiff := new(big.Int).Mul(new(big.Int).SetUint64(diff), big.NewInt(10000))
+	bound := new(big.Int).Mul(big.NewInt(deviationBasisPoint), new(big.Int).SetUint64(oldPrice))
 
 	// Check if the new price deviation is meets or exceeds the bounds
-	return deviationBasisPoint <= dev
+	return scaledDiff.Cmp(bound) >= 0
 }
 
 func convertPriceData(price *bothan.Price) (types.SignalPrice, error) {
